@@ -10,6 +10,7 @@ static void vb_hostile_read(struct AbstractFile *p, char *s, int64_t n)
     __CPROVER_assume(p->p <= p->g && p->g <= p->fileSize);   /* just asserted: cuts the arithmetic chain for the solver */
     if (!(n >= 0 && (n == 0 || __CPROVER_w_ok(s, n)))) { __CPROVER_assume(0); }
     if (n > 0) __CPROVER_havoc_slice(s, (size_t)n);
+    p->asked += (uint64_t)n;      /* ghost: bytes the decoder asked for or skipped since the object's start (no wrap: n < 2^63, few calls) */
     /* g is set directly (not g += fileSize - g): add/subtract cancellation is what SAT solvers cannot see */
     if (p->g + n > p->fileSize) { p->gcount = p->fileSize - p->g; p->rdstate = IOS_eofbit | IOS_failbit; p->g = p->fileSize; p->hdr_end = 1; /* ghost: a read was cut short */ }
     else { p->gcount = n; if (n > 0) p->rdstate = IOS_goodbit; p->g = p->g + n; }      /* a zero-length read leaves the state as it is */
@@ -20,6 +21,8 @@ static void vb_hostile_seekg(struct AbstractFile *p, int64_t off, int way)
 {
     __CPROVER_assert(off > -((int64_t)1 << 40) && off < ((int64_t)1 << 40), "seek offset in range");
     int64_t t = p->g + off;
+    p->asked += (uint64_t)off;
+    if (t > p->fileSize) p->clamped = 1;   /* ghost: a skip ran into the declared end (the state stays as it is) */
     p->g = t < p->fileSize ? t : p->fileSize;
     __CPROVER_assert(p->p <= p->g && p->g <= p->fileSize, "stream invariant object start <= tellg <= declared end");
     __CPROVER_assume(p->p <= p->g && p->g <= p->fileSize);
